@@ -158,18 +158,15 @@ Theorem no_silent_passthrough_partial : forall c sc n,
 Proof. exact ScopeProofs.no_silent_passthrough_partial. Qed.
 Print Assumptions no_silent_passthrough_partial.
 
-Definition no_silent_passthrough_at (c : cfg) : Prop :=
-  if cfg_that_rejected c
-  then forall sc id, lower_ref c sc id <> OPassthrough
-  else (exists sc n, scope_closed sc = true /\ in_frames sc n = false /\ lower_ref c sc ([], n) = OPassthrough)
-       /\ (forall sc n, leqb n s_that_name = false \/ s_that sc <> None -> lower_ref c sc ([], n) <> OPassthrough).
+(* The tree under test has the repair 006e33c (table obligation on the regenerated [head_cfg]; a regression to the old
+   shape breaks it, and the streams -- edit class (f), the lowerer-trace oracle -- then find the concrete `that`). *)
+Theorem c10_head_cfg_is_repaired : head_cfg = mkCfg true true.
+Proof. vm_compute. reflexivity. Qed.
+Print Assumptions c10_head_cfg_is_repaired.
 
-Theorem c10_head_no_silent_passthrough : no_silent_passthrough_at head_cfg.
-Proof.
-  unfold no_silent_passthrough_at. destruct (cfg_that_rejected head_cfg) eqn:E.
-  - apply no_silent_passthrough. exact E.
-  - split; [apply no_silent_passthrough_refuted; exact E | apply no_silent_passthrough_partial].
-Qed.
+(* FULL STRENGTH at the head configuration: no identifier, qualified or not, in any scope, reaches SQL unresolved *)
+Theorem c10_head_no_silent_passthrough : forall sc id, lower_ref head_cfg sc id <> OPassthrough.
+Proof. apply no_silent_passthrough. vm_compute. reflexivity. Qed.
 Print Assumptions c10_head_no_silent_passthrough.
 
 (* the former witness of C10-F1 (`from t | select {a} | derive {x = date}`, date from the GENERATED std table) is an error now *)
@@ -270,25 +267,24 @@ Definition ex_mods : list (list str * nkind) := [([[109]; [107]], NValue); ([[10
 Definition ex_ms (cur : list str) : mscope :=
   mkMScope (mkScope [(s_std_name, NModule); (s_db_name, NModule); ([109], NModule)] (mkFrame [] []) None [] std_names) cur ex_mods.
 
-Definition parent_visible_at (c : cfg) : Prop :=
-  if cfg_parent_walk c
-  then forall mods sc m n id x,
-         (forall y, mlookup mods sc ([m; n] ++ fst id, snd id) <> [y]) ->
-         mlookup mods sc ([m] ++ fst id, snd id) = [x] -> rel_enclosing c mods sc [m; n] id = Some x
-  else rel_arg_kind_m c (ex_ms [[109]; [110]]) ([], [107]) = Some ARel      (* the parent's constant k read as a database table *)
-       /\ (forall ms m cur n, ms_cur ms = m :: cur ->                        (* what does hold: the declaration's own module *)
-              mlookup (ms_mods ms) (shadowed (ms_scope ms)) (m :: cur, n) = [CRoot NValue] ->
-              rel_arg_kind_m c ms ([], n) = Some AScalar).
-
-Theorem c10_head_parent_modules : parent_visible_at head_cfg.
-Proof.
-  unfold parent_visible_at. destruct head_cfg as [a b] eqn:E. cbn [cfg_parent_walk]. destruct b.
-  - intros. apply parent_declaration_found; [reflexivity | assumption | assumption].
-  - split; [vm_compute; reflexivity|].
-    intros ms m cur n Hcur Hl. unfold rel_arg_kind_m. rewrite Hcur.
-    rewrite (ScopeProofs.rel_enclosing_sibling _ _ _ m cur [] n (CRoot NValue)); [reflexivity|]. rewrite app_nil_r. exact Hl.
-Qed.
+(* FULL STRENGTH at the head configuration (repair 7f02b48): a declaration of the parent module is what the name means
+   unless the declaration's own module declares it -- in relation positions and in value positions *)
+Theorem c10_head_parent_modules : forall mods sc m n id x,
+  (forall y, mlookup mods sc ([m; n] ++ fst id, snd id) <> [y]) ->
+  mlookup mods sc ([m] ++ fst id, snd id) = [x] -> rel_enclosing head_cfg mods sc [m; n] id = Some x.
+Proof. intros. apply parent_declaration_found; [vm_compute; reflexivity | assumption | assumption]. Qed.
 Print Assumptions c10_head_parent_modules.
+
+Theorem c10_head_parent_values : forall mods sc m n id r,
+  (exists e, resolve_core_m mods sc ([m; n] ++ fst id, snd id) = RErr e) ->
+  resolve_core_m mods sc ([m] ++ fst id, snd id) = r -> (forall e, r <> RErr e) ->
+  resolve_enclosing head_cfg mods sc [m; n] id = r.
+Proof. intros. apply ScopeProofs.parent_value_found; [vm_compute; reflexivity | assumption | assumption | assumption]. Qed.
+Print Assumptions c10_head_parent_values.
+
+Theorem c10_head_every_ancestor_visited : forall pre x suf, In (pre ++ [x]) (walk head_cfg (pre ++ x :: suf)).
+Proof. intros. apply parent_walk_visits_every_ancestor. vm_compute. reflexivity. Qed.
+Print Assumptions c10_head_every_ancestor_visited.
 
 Example c10_ex_module_sibling :
   let old := mkCfg false false in let new := mkCfg false true in
